@@ -135,6 +135,20 @@ CHECKS['C08'] = (
     'Span settings with padding/0.2 >= max_length contradict each other and are not explored; topologies have <= 4 ROADM sites.',
     'DESIGN.md 3/C08')
 
+CHECKS['C09'] = (
+    'deviation-bounded enumeration of topology x Span-rule configurations through designed_network; budget equation, '
+    'documented rule and reproduction by propagating the design comb under the recorder',
+    'Over site graph, link chains (incl. operator-set gain / offset / VOA, saturating operator values), delta_power_range '
+    '(aligned and non-aligned bounds, zero range), slope, reference span loss, VOA optimisation, SI power, ROADM target, padding, '
+    'EOL, max_length, connectors, power/gain mode and library, within 2 (quick) / 3 (thorough) deviations: every amplifier of '
+    'every OMS must satisfy gain = loss since the previous amplifier + in_voa + offset - previous net offset; where the operator '
+    'set nothing the offset after the VOA equals the documented rule (slope x (next span loss - ref), rounded, clamped, 0 before a '
+    'ROADM) reduced only for saturation/capability; operator offsets and gains are kept unless they saturate and never reduced '
+    'more than needed; propagating the design comb reproduces the design power at every amplifier and ROADM output.',
+    'Span losses are read from the designed elements (C05 ties them to the documents); rounding ties are unjudged; Raman, '
+    'multiband and per-frequency-loss spans are not judged here.',
+    'DESIGN.md 3/C09')
+
 ALL = [f'C{i:02d}' for i in range(1, 21)]
 NOT_BUILT_REASON = 'check not built yet in this round (planned, see DESIGN.md section 3); not claimed until it runs'
 
